@@ -18,10 +18,16 @@ import (
 type chooser struct {
 	c        *mc.Ctx
 	noAdv    bool
+	fixed    bool
 	advances int
 }
 
-func (ch *chooser) Pick(n int) int { return ch.c.DelayChoice(n) }
+func (ch *chooser) Pick(n int) int {
+	if ch.fixed {
+		return 0 // default schedule inside components: no choice point
+	}
+	return ch.c.DelayChoice(n)
+}
 func (ch *chooser) Advance() bool {
 	if ch.noAdv {
 		return false
@@ -40,6 +46,7 @@ type Opts struct {
 	NoAdvanceAlt   bool // time passes only when nothing is runnable
 	SelectRotation bool // which ready select case wins is a (deviation-costed) choice
 	AllowCut       bool // reaching the horizon is not an error
+	FixedSchedule  bool // threads always run in the default order (cluster simulation: branching only at harness choices)
 }
 
 // Run executes body as thread 0 under the scheduler, drawing every decision from c. It
@@ -50,7 +57,7 @@ func Run(c *mc.Ctx, o Opts, body func()) *shim.Sched {
 		o.MaxSteps = 20000
 	}
 	Housekeeping()
-	s := shim.NewSched(&chooser{c: c, noAdv: o.NoAdvanceAlt}, o.MaxSteps)
+	s := shim.NewSched(&chooser{c: c, noAdv: o.NoAdvanceAlt, fixed: o.FixedSchedule}, o.MaxSteps)
 	if o.MaxAdvances > 0 {
 		s.MaxAdvances = o.MaxAdvances
 	}
